@@ -279,6 +279,16 @@ impl<T: Types> RaftLog<T> {
             );
         }
 
+        // The process that wrote these chunks may have stopped, or its sync may
+        // have failed, before the data reached the disk: a file is then
+        // complete only in the page cache. The FlushWorker of this instance
+        // syncs the chunks it writes to, never the ones it found, so make what
+        // was replayed durable before anything builds on it (acknowledged
+        // flushes, removal of purged chunks).
+        for c in closed.values() {
+            c.chunk.f.sync_data()?;
+        }
+
         let open = Self::reopen_last_closed(&mut closed);
 
         let open = if let Some(open) = open {
